@@ -66,7 +66,7 @@ extern "C" int pthread_create(pthread_t *t, const pthread_attr_t *a, void *(*fn)
 #endif
 
 enum Api { ENQ = 0, TRY = 1, RES = 2 };
-enum Kind { QUICK = 0, SLEEP = 1, THROW = 2, NEST = 3, LATCH = 4 };
+enum Kind { QUICK = 0, SLEEP = 1, THROW = 2, NEST = 3, LATCH = 4, LONG = 5 };
 
 struct TaskRec
 {
@@ -112,6 +112,7 @@ static int taskBody(Scn *S, size_t id, int kind, uint64_t salt)
   switch (kind)
   {
   case SLEEP: vf::sleepMs(0.05 * double(salt % 40)); break;
+  case LONG: vf::sleepMs(double(salt)); break; // salt = duration in ms
   case THROW: throw std::runtime_error("task-" + std::to_string(id));
   case NEST:
   {
@@ -383,15 +384,127 @@ static bool runScenario(uint64_t seed, uint64_t idx)
   return true;
 }
 
+// ---- long tasks -------------------------------------------------------------------------------
+// The shutdown paths contain fixed waits (shutdown(): 5 s for active tasks + 1 s re-check; the
+// destructor's drain phase: 5 s; drain(timeout)). A task that outlives such a wait must still be
+// waited for (the join does that): "stopping or destroying the pool returns only after every
+// accepted task has finished, and no task starts afterwards". Variants place the long task on
+// either side of each threshold and reach shutdown() directly, through stop() from Draining after
+// a timed-out drain(), through stop() from Running, and through the destructor.
+static const int kLongVariants = 8;
+static bool runLong(uint64_t seed, uint64_t variant)
+{
+  auto &O = vf::out();
+  vf::Rng rng(seed, 7700 + variant);
+  auto S = new Scn();
+  G = S;
+  //                       0     1     2     3     4     5     6     7
+  static const int how[] = {4,    2,    0,    4,    1,    2,    0,    4};   // 4 shutdown() 2 drain(short)+stop() 0 destructor 1 stop() from Running
+  static const int dur[] = {6600, 6600, 6600, 5350, 6600, 5350, 5350, 7300};
+  static const size_t mn[] = {1,  1,    1,    2,    1,    0,    2,    0};
+  static const size_t mx[] = {1,  1,    1,    2,    2,    1,    2,    3};
+  int v = int(variant % kLongVariants);
+  int shutdownKind = how[v];
+  S->minT = mn[v]; S->maxT = mx[v]; S->qsize = 64;
+  int nLong = int(S->maxT);                       // every worker busy with a long task
+  int nQueued = int(rng.range(1, 6));             // quick tasks queued behind them
+  int jitter = int(rng.below(300));
+  size_t total = size_t(nLong + nQueued) + 2;
+  for (size_t i = 0; i < total; i++) S->recs.emplace_back(new TaskRec());
+  auto onErr = [S](std::exception_ptr) { S->errHandlerCalls++; };
+  S->pool = new ThreadPool(S->minT, S->maxT, std::chrono::milliseconds(500), S->qsize, onErr);
+  for (int i = 0; i < nLong; i++) submit(S, size_t(i), int(rng.below(3)), LONG, uint64_t(dur[v] + jitter));
+  // wait until the long tasks are really running, so that the quick ones stay queued behind them
+  for (int i = 0; i < 4000 && S->running.load() < nLong; i++) vf::sleepMs(0.5);
+  for (int i = 0; i < nQueued; i++) submit(S, size_t(nLong + i), int(rng.below(3)), QUICK, 1);
+  vf::sleepMs(double(rng.range(20, 200)));
+  std::atomic<bool> shutdownDone{false};
+  std::thread wd([&shutdownDone, variant]() {
+    tlsHarnessThread = true;
+    uint64_t t0 = vf::nowNs();
+    while (!shutdownDone.load())
+    {
+      vf::sleepMs(5);
+      if (vf::nowNs() - t0 > 120ull * 1000000000ull)
+      {
+        vf::out().viol("C09:shutdown-hang:long-task", "shutdown did not return within 120 s (tasks are bounded to 8 s)", "{\"variant\":" + std::to_string(variant) + "}");
+        vf::out().line("{\"t\":\"stopped\",\"at\":" + std::to_string(variant) + "}");
+        vf::out().flush(); fflush(nullptr); _exit(0);
+      }
+    }
+  });
+  std::string msgs;
+  bool stopOk = true, drainTimedOut = false;
+  S->stopBeganNs = vf::nowNs();
+  if (shutdownKind == 0) { delete S->pool; S->pool = nullptr; }
+  else if (shutdownKind == 4) S->pool->shutdown();
+  else
+  {
+    if (shutdownKind == 2) { auto dr = S->pool->drain(uint32_t(rng.range(100, 400))); drainTimedOut = !dr.success; msgs += "drain: " + dr.message + "; "; }
+    auto sr = S->pool->stop();
+    stopOk = sr.success; msgs += "stop: " + sr.message;
+  }
+  S->fenceNs = vf::nowNs();
+  shutdownDone = true; wd.join();
+  uint64_t tookMs = (S->fenceNs.load() - S->stopBeganNs.load()) / 1000000;
+  vf::sleepMs(300); // a task that starts late would start about now
+  uint64_t accepted = 0, ran0 = 0, ranMany = 0, lateStart = 0, lateExit = 0, running = 0;
+  for (size_t i = 0; i < size_t(nLong + nQueued); i++)
+  {
+    TaskRec &r = *S->recs[i];
+    if (r.accepted.load() != 1) continue;
+    accepted++;
+    int runs = r.runs.load();
+    if (runs == 0) ran0++;
+    if (runs > 1) ranMany++;
+    if (runs && r.entryNs.load() > S->fenceNs.load()) lateStart++;
+    if (runs && (r.exitNs.load() == 0 || r.exitNs.load() > S->fenceNs.load())) { lateExit++; if (r.exitNs.load() == 0) running++; }
+  }
+  auto det = [&](const std::string &extra) {
+    std::ostringstream d;
+    d << "{\"variant\":" << v << ",\"seed\":" << seed << ",\"min\":" << S->minT << ",\"max\":" << S->maxT << ",\"long_tasks\":" << nLong << ",\"long_ms\":" << dur[v] + jitter
+      << ",\"queued_quick\":" << nQueued << ",\"shutdown\":" << shutdownKind << ",\"shutdown_took_ms\":" << tookMs << ",\"messages\":" << vf::jstr(msgs) << "," << extra << "}";
+    return d.str();
+  };
+  const char *hn = shutdownKind == 0 ? "destructor" : shutdownKind == 4 ? "shutdown" : shutdownKind == 2 ? "stop-after-timed-out-drain" : "stop";
+  // a stop() that REPORTS failure has not claimed that the pool stopped; every other return is a claim
+  bool claimed = shutdownKind == 0 || shutdownKind == 4 || stopOk;
+  if (claimed)
+  {
+    if (lateStart || ran0) O.viol(std::string("C09:long-task:") + hn + ":task-started-after-shutdown", "with a task outliving the internal waits, shutdown returned while accepted tasks had not started; they started afterwards or never ran",
+                                  det("\"late_start\":" + std::to_string(lateStart) + ",\"never_ran_within_300ms\":" + std::to_string(ran0)));
+    if (lateExit) O.viol(std::string("C09:long-task:") + hn + ":task-running-after-shutdown", "with a task outliving the internal waits, shutdown returned while an accepted task was still executing",
+                         det("\"still_running_or_finished_late\":" + std::to_string(lateExit) + ",\"still_running_300ms_later\":" + std::to_string(running)));
+  }
+  else O.obs("long_stop_reported_failure");
+  if (ranMany) O.viol("C09:task-ran-twice", "accepted task executed more than once", det("\"count\":" + std::to_string(ranMany)));
+  if (accepted != uint64_t(nLong + nQueued)) O.viol("C09:refused-full-unjustified", "submission refused on a running pool whose queue (64) was never full", det("\"accepted\":" + std::to_string(accepted)));
+  // let everything end before the objects go away (a violating tree may still be running tasks)
+  for (int i = 0; i < 20000 && S->running.load() > 0; i++) vf::sleepMs(1);
+  if (S->pool) { delete S->pool; S->pool = nullptr; }
+  O.obs("long_scenarios"); O.obs(std::string("long_") + hn); O.obs("tasks_accepted", accepted);
+  if (drainTimedOut) O.obs("long_drain_timed_out_before_stop");
+  O.obsMax("long_shutdown_took_ms_max", tookMs);
+  char sig[160];
+  snprintf(sig, sizeof sig, "long v=%d sd=%d min=%zu max=%zu dur=%d claimed=%d", v, shutdownKind, S->minT, S->maxT, dur[v], claimed ? 1 : 0);
+  O.caseSig(vf::fnv(sig, strlen(sig)));
+  O.sample("{\"kind\":\"long-task shutdown\",\"sig\":" + vf::jstr(sig) + ",\"shutdown_took_ms\":" + std::to_string(tookMs) + ",\"accepted\":" + std::to_string(accepted) + "}");
+  delete S;
+  G = nullptr;
+  return true;
+}
+
 int main(int argc, char **argv)
 {
   tlsHarnessThread = true;
   vf::Args a(argc, argv);
   uint64_t seed = a.u("seed", 1), from = a.u("from", 0), count = a.u("count", 10);
+  bool longMode = a.u("long", 0) != 0;
   auto &O = vf::out();
   for (uint64_t i = from; i < from + count; i++)
   {
     O.line("{\"t\":\"begin\",\"i\":" + std::to_string(i) + "}");
+    if (longMode) runLong(seed, i); else
     runScenario(seed, i);
   }
 #if !VF_TSAN
